@@ -656,6 +656,13 @@ func (e *Enc) errAsPred(t types.Type) string {
 	return n
 }
 
+// errAsVal names the value errors.As stores into a target of type T when it succeeds.
+func (e *Enc) errAsVal(t types.Type) string {
+	n := "errAsVal!" + shortTypeName(t)
+	e.W.declare(n, fmt.Sprintf("(declare-fun %s (Iface) %s)", n, e.W.sortOf(t)))
+	return n
+}
+
 // encodeErrorsAs models errors.As(err, &target): the result is a fixed (uninterpreted)
 // predicate of err, false for nil; the target variable is overwritten arbitrarily.
 func (e *Enc) encodeErrorsAs(st *bstate, call *ssa.CallCommon, pos token.Pos) Val {
@@ -670,16 +677,19 @@ func (e *Enc) encodeErrorsAs(st *bstate, call *ssa.CallCommon, pos token.Pos) Va
 		e.unknownCall(st, "errors#As (target not a pointer)", pos)
 		return e.freshVal(st, types.Typ[types.Bool], "erras")
 	}
-	e.externs["errors#As (result = fixed predicate of the error, false for nil; target overwritten)"] = true
+	e.externs["errors#As (result = fixed predicate of the error, false for nil; on success target = fixed function of the error, else overwritten)"] = true
 	tv := e.val(mi.X)
+	pred := app(e.errAsPred(pt.Elem()), errT)
+	nv := e.freshVal(st, pt.Elem(), "erras.target").T
+	e.assume(st.reach, sImp(pred, sEq(nv, app(e.errAsVal(pt.Elem()), errT))))
 	if tv.Loc != nil {
-		e.storeLoc(st, tv.Loc, e.freshVal(st, pt.Elem(), "erras.target").T)
+		e.storeLoc(st, tv.Loc, nv)
 	} else if e.W.structInfo(pt.Elem()) != nil {
-		e.storeStruct(st, tv.T, pt.Elem(), e.freshVal(st, pt.Elem(), "erras.target").T)
+		e.storeStruct(st, tv.T, pt.Elem(), nv)
 	} else {
-		e.storeLoc(st, &Loc{Comp: e.W.cellComp(pt.Elem()), Idx: []string{tv.T}, Typ: pt.Elem()}, e.freshVal(st, pt.Elem(), "erras.target").T)
+		e.storeLoc(st, &Loc{Comp: e.W.cellComp(pt.Elem()), Idx: []string{tv.T}, Typ: pt.Elem()}, nv)
 	}
-	return Val{T: app(e.errAsPred(pt.Elem()), errT), Typ: types.Typ[types.Bool]}
+	return Val{T: pred, Typ: types.Typ[types.Bool]}
 }
 
 // guardsFor returns the guard declarations of struct type t.
